@@ -364,3 +364,21 @@ Proof.
     + cbv beta iota in H. unfold negb in H. inversion H; subst. repeat split; try reflexivity.
       apply Hset. apply (worker_do_not_filled _ _ _ _ _ _ _ Hwd).
 Qed.
+
+(* counted => every price string is a decimal number (sanityCheck, repaired behaviour) *)
+Lemma check_msg_numeric p m x :
+  check_msg p m x = true -> forall ps it, In ps (m_prices x) -> In it (ps_prices ps) -> pi_num it = true.
+Proof.
+  unfold check_msg, sanity_check. intros H ps it Hps Hit.
+  apply andb_prop in H. destruct H as [Hs _]. apply andb_prop in Hs. destruct Hs as [_ Hf].
+  rewrite forallb_forall in Hf. specialize (Hf ps Hps). unfold sanity_source in Hf.
+  apply andb_prop in Hf. destruct Hf as [Hf _]. apply andb_prop in Hf. destruct Hf as [_ Hn].
+  rewrite forallb_forall in Hn. exact (Hn it Hit).
+Qed.
+
+Lemma create_price_counted_numeric p now s m x s' m' r :
+  create_price p now s m x = (s', m', r) -> r = MsgCounted \/ r = MsgFinal ->
+  forall ps it, In ps (m_prices x) -> In it (ps_prices ps) -> pi_num it = true.
+Proof.
+  intros H Hr. destruct (create_price_counted _ _ _ _ _ _ _ _ H Hr) as [_ [Hcm _]]. exact (check_msg_numeric _ _ _ Hcm).
+Qed.
